@@ -648,4 +648,14 @@ func runFanoutHistory(cfgTok, evTok string) string {
 func init() {
 	httpts.SubSessionWriteChanSize = 0
 	register("c01.hist", func(a []string) string { return runFanoutHistory(a[0], a[1]) })
+	// the per-message conversions every consumer shares
+	register("c01.conv", func(a []string) string {
+		p := bytesTok(a[2])
+		msg := base.RtmpMsg{Header: base.RtmpHeader{MsgLen: uint32(len(p)), MsgTypeId: uint8(numTok(a[0])), MsgStreamId: 77, Csid: 99, TimestampAbs: uint32(numTok(a[1]))}, Payload: p}
+		var lcd remux.LazyRtmpChunkDivider
+		var l2t remux.LazyRtmpMsg2FlvTag
+		lcd.Init(msg.Clone())
+		l2t.Init(msg.Clone())
+		return fmt.Sprintf("%s %s %s", tokBytes(lcd.GetEnsureWithoutSdf()), tokBytes(lcd.GetEnsureWithSdf()), tokBytes(l2t.GetEnsureWithoutSdf()))
+	})
 }
